@@ -140,7 +140,9 @@ def gen_program(rng):
         if b["outp"] is not None:
             fields.append("outp = %d" % b["outp"])
         if b["fill"]:
-            fields.append("fill = true")
+            fields.append(rng.choice(["fill = true", "fill = true", "fill"]))
+        elif rng.random() < 0.3:
+            fields.append("fill = false")       # (finding F65, repaired: any value used to mean true)
         if b["la"] is not None:
             fields.append("labelalign = %d" % b["la"])
         rng.shuffle(fields)
